@@ -305,6 +305,25 @@ def run(ctx):
             early_bad += 1
             if early_bad >= 5:      # enough failing schedules: stop exploring, report them
                 break
+    # small scope, exhaustively: every schedule with a bounded number of deviations from the scheduler's base policy
+    pbstat = {}
+    for (behs, f, tconn, tcmd, depth) in ([("oh", 2, 1, 0, 1), ("Ho", 1, 1, 1, 1), ("ro", 1, 1, 0, 1)] if quick else
+                                          [("oh", 2, 1, 0, 2), ("Ho", 1, 1, 1, 2), ("ro", 1, 1, 0, 2), ("hHo", 2, 1, 1, 1), ("ohr", 3, 2, 0, 1)]):
+        n = len(behs)
+        hosts = []
+        for i, b in enumerate(behs):
+            if b == "o":
+                hosts.append(("h%d" % i, "o", "A" + (b"o%d-0\n" % i).hex(), "-", 0))
+            elif b == "H":
+                hosts.append(("h%d" % i, "o", "A" + (b"o%d-0\n" % i).hex() + "/H", "-", 0))
+            else:
+                hosts.append(("h%d" % i, b, "-", "-", 0))
+        args = ["-R", "sim", "-f", str(f), "-t", str(tconn), "-u", str(tcmd), "-w", "h[0-%d]" % (n - 1), "cmd"]
+        pr = schedeng.explore_pb(eng, args, hosts, depth, spur=1, max_runs=2500 if quick else 150000, env={"SCHED_MAXSTEP": "30000"}, timeout=10)
+        pbstat["%s f=%d depth=%d" % (behs, f, depth)] = len(pr)
+        for ru in pr:
+            # a deviation may be a clock tick while threads can move: deadlines are judged on the random maximal-progress runs only
+            runs.append((ru, n, f, tconn, tcmd, behs, hosts, False))
     # documented complement: command timeout 0 waits for a host that hangs mid-command
     waits = 0
     for k in range(3 if quick else 20):
@@ -350,7 +369,7 @@ def run(ctx):
     have_input = any(v["kind"] != "no-failing-input-found" for v in ctx.violations)
     vlib.report_proof_break(ctx, have_input)
     cov = vlib.proof_coverage(ctx, {
-        "real_transport_runs": nreal,
+        "real_transport_runs": nreal, "exhaustive_bounded_deviation_schedules": pbstat,
         "evaluations": len(runs), "distinct_nontrivial": len(set(c for c in cases if len(c) > 80)),
         "traces_validated_against_impl": nacc,
         "rule": "runs of the whole pdsh program under the controlled scheduler with a virtual clock and a scripted transport: 1..6 targets, each assigned one of {ok (plain / non-zero status / killed / stdout or stderr closing early), refuse, hang in connect, hang mid-command}, connect timeout 1..5, command timeout 0..4, fanout 1..N+1, seeded random schedules, 0-2 spurious wake-ups; three quarters of the runs let time pass only when every thread is blocked (deadlines are judged there), the rest tick at random points; every trace must be a run of the Coq timed transition system and is judged for isolation, reporting, deadlines and termination; distinct = distinct event trace",
